@@ -55,9 +55,15 @@ func responseParts(cfg envCfg) (hdr http.Header, term []byte, trailer http.Heade
 
 // clientStreamRecv runs a server-streaming call against a canned response and
 // returns what the caller observed: messages, then "eof" or an error code.
-func clientStreamRecv(cfg envCfg, status int, hdr http.Header, body *h.ChunkBody, trailer http.Header) (obs []obsItem, panicked any) {
+func clientStreamRecv(cfg envCfg, status int, hdr http.Header, body *h.ChunkBody, trailer http.Header, declaredLength ...int64) (obs []obsItem, panicked any) {
 	canned := &h.CannedClient{Build: func(*http.Request) (*http.Response, error) {
-		return h.NewResponse(status, hdr.Clone(), body, trailer.Clone()), nil
+		resp := h.NewResponse(status, hdr.Clone(), body, trailer.Clone())
+		if len(declaredLength) == 1 {
+			// the peer declared the length of its body (HTTP/2 allows Content-Length next to trailers)
+			resp.ContentLength = declaredLength[0]
+			resp.Header.Set("Content-Length", fmt.Sprint(declaredLength[0]))
+		}
+		return resp, nil
 	}}
 	panicked = safely(func() {
 		client := connect.NewClient[h.Raw, h.Raw](canned, "http://verif.local/verif.Svc/Stream", clientOpts(cfg, "")...)
@@ -255,8 +261,12 @@ func C03(r *h.Run) {
 		}
 		for vi, chunks := range variants {
 			fin := []h.FinKind{h.FinCleanEOF, h.FinEOFWithData}[vi%2]
-			got, p := clientStreamRecv(cfg, 200, hdr, h.NewChunkBody(chunks, fin), trailer)
-			r.Eval("client_split", fmt.Sprintf("%v|%x|%v|%d", cfg, body, chunkSizes(chunks), fin))
+			var declared []int64
+			if (vi/2)%2 == 1 && len(body) > 0 {
+				declared = []int64{int64(len(body))} // an honest Content-Length
+			}
+			got, p := clientStreamRecv(cfg, 200, hdr, h.NewChunkBody(chunks, fin), trailer, declared...)
+			r.Eval("client_split", fmt.Sprintf("%v|%x|%v|%d|%v", cfg, body, chunkSizes(chunks), fin, declared))
 			if p != nil {
 				r.Fail(h.Failure{Key: "client/panic", Family: "client_split", What: fmt.Sprint("panic: ", p), Input: map[string]any{"cfg": cfg, "body_hex": h.Hex(body)}})
 				continue
